@@ -274,6 +274,10 @@ def items(tier):
             for K in ks:
                 out.append((i, 'M', W, ta, K))
                 i += 1
+    # a run-time bool (and byte / int) against a LITERAL of its type with == and !=, in every position
+    for W in (Ws if tier == 'thorough' else [2]):
+        out.append((i, 'BL', W))
+        i += 1
     # one run-time operand and two compile-time constants (re-association across a wrap)
     from ..gen import chain
     for W in (Ws if tier == 'thorough' else [2, 3]):
@@ -293,6 +297,24 @@ def items(tier):
             out.append((i, 'U', 2, lo, lo + 32 if lo + 32 <= 32768 else 32768))
             i += 1
     return out
+
+
+def bool_literal_program():
+    L = ['bool gb = false; byte gy = 0;', "empty !d(bool c) { write('('); !truth_is_defeat(c); write(')'); }", 'bool id(bool v) { return v; }',
+         'empty @is_you(int a, int b) {', 'bool p = a is bool; bool q = b is bool; byte y = b is byte; bool[] bs = [p, q, true]; gb = p; gy = y;']
+    subjects = [('p', ['true', 'false']), ('q', ['true', 'false']), ('gb', ['true', 'false']), ('bs[0]', ['true', 'false']), ('id(p)', ['true', 'false']), ('(a > 0)', ['true', 'false']),
+                ('(not p)', ['true', 'false']), ('(p and q)', ['true', 'false']), ('y', ['0', '1', '255', "'a'"]), ('gy', ['0', '255']), ('a', ['0', '1', '-1', '256'])]
+    n = 0
+    for subj, lits in subjects:
+        for lit in lits:
+            for op in ('==', '!='):
+                for e in (f'{subj} {op} {lit}', f'{lit} {op} {subj}'):
+                    n += 1
+                    L.append(f"writeln({e}); if ({e}) {{ write('T'); }} else {{ write('F'); }} if (not ({e})) {{ write('N'); }} bool v{n} = {e}; write(v{n}); "
+                             f"if (({e}) and q) {{ write('A'); }} if (({e}) or q) {{ write('O'); }} int k{n} = 0; while ({e} and k{n} < 2) {{ k{n} += 1; }} write(k{n}); write(({e}) is int); "
+                             f"try {{ !truth_is_defeat({e}); write('c'); }} undo {{ write('u'); }} try {{ !d({e}); write('c'); }} stop {{ write('s'); }} writeln();")
+    L.append('}')
+    return '\n'.join(L)
 
 
 def lit_values(W):
@@ -402,6 +424,13 @@ def run_item(item, tier):
         run_program(st, src, argvs, [W], f'run-time {ta} operand against the constant {K}')
         st.add('distinct_nontrivial', len(argvs))
         st.sample({'family': 'mixed', 'operand_type': ta, 'constant': K, 'W': W, 'operand_values': len(argvs)})
+    elif item[1] == 'BL':
+        from ..cases import run_program
+        W = item[2]
+        src = bool_literal_program()
+        argvs = [[str(a), str(b)] for a in (0, 1, 2, -1, 256) for b in (0, 1, 255)]
+        run_program(st, src, argvs, [W], 'run-time bool/byte/int compared with a literal (== !=, both orders, value / branch / loop / not / and-or / !truth_is_defeat)')
+        st.add('distinct_nontrivial', len(argvs))
     elif item[1] == 'CH':
         from ..cases import run_program
         from ..gen import chain
@@ -505,6 +534,8 @@ def coverage(total, tier):
         'chains': 'one run-time int and two compile-time constants in five shapes (x op1 K1 op2 K2; K1 op1 x op2 K2; K2 op2 (x op1 K1); (K1 op1 x) op2 K2; the same through const variables), op1 in + - * / %, op2 in '
                   '+ - * / % and the six comparisons, K1 ' + ('and K2 over 19 constants' if tier == 'thorough' else 'over 8 and K2 over 19 constants') + ' on both sides of every wrap (1, 2, 3, 7, 10, +-1, +-2, 255..257, 300, -256, 2^(n/2), 2^(n/2)+1, 2^(n-2), max, max-1, min, min+1), x over '
                   + ('23' if tier == 'thorough' else '13') + ' boundary values; oracle: reference interpreter (re-association of the constants is only valid when nothing wraps)',
+        'bool_literals': 'run-time bool from 8 sources (local, global, element, call, comparison, not, and) and byte / int values against a literal of their type with == and != in both orders, as value, branch, negated branch, '
+                         'stored value, and / or operand, loop condition, cast and !truth_is_defeat argument (try/undo and inside a defeat function); oracle: reference interpreter',
         'literals': 'the same operators with both operands written as literals (13 values per word size incl. max, max+1, 2^n-1, 2^n, 2^n+1): all 169 pairs',
         'unary': ('all 65536 values' if tier == 'thorough' else '6 windows of 32 values around the boundaries') + ' at W=2 for - , is byte, is bool, not, *, /, %, <',
     })
